@@ -121,6 +121,7 @@ func (*parser).parse [C07]
 // reporting: the first error of a statement is delivered and enters panic mode; follow-ups are suppressed
 func (*parser).errVal [C07]
   requires p != nil
+  modifies parser.parser.panicMode, parser.parser.lastError, parser.parser.errored, g:$deliveredErr
   ensures old(p.panicMode) ==> $deliveredErr == old($deliveredErr) && p.errored == old(p.errored) && p.panicMode
   ensures !old(p.panicMode) ==> p.panicMode && $deliveredErr == (old($deliveredErr) || err.Level == ddperror.LEVEL_ERROR)
 
@@ -286,6 +287,44 @@ func (*parser).alias [C07]
 
 // the callback handed to filepath.WalkDir for directory imports: WalkDir passes a nil entry only together with the
 // root path (when the root cannot be read), so the entry may be used for every other path - and only there
+// ================= C10: one parse per path, cycles rejected =================
+// resolveSingleModule, the closure of resolveModuleImport that maps a resolved path to a module.
+// predefinedModules: path -> module, nil while that module is still being parsed (shared by all recursive Parse calls).
+func (*parser).resolveModuleImport$1 [C10]
+  requires p != nil && importStmt != nil && p.predefinedModules != nil
+  // a path that is marked "in progress" means the modules import each other: reported, and nothing is imported
+  calls err when old(mapHas(p.predefinedModules, inclPath) && p.predefinedModules[inclPath] == nil)
+  ensures old(mapHas(p.predefinedModules, inclPath) && p.predefinedModules[inclPath] == nil) ==> len(importStmt.Modules) == old(len(importStmt.Modules))
+  // a module is parsed only when its path is new, and the path is marked in progress before the recursive parse starts
+  callsite Parse requires !old(mapHas(p.predefinedModules, inclPath))
+  callsite Parse requires mapHas(p.predefinedModules, inclPath) && p.predefinedModules[inclPath] == nil
+  callsite Parse requires arg0.FileName == inclPath && arg0.Modules == p.predefinedModules
+  // a path that was parsed before yields the same module object again (one module per path)
+  ensures old(mapHas(p.predefinedModules, inclPath) && p.predefinedModules[inclPath] != nil) ==>
+          len(importStmt.Modules) == old(len(importStmt.Modules)) + 1 &&
+          importStmt.Modules[len(importStmt.Modules) - 1] == old(p.predefinedModules[inclPath])
+
+// a function enters the export table only if it is marked public (and its name was free); nothing else in the table
+// changes up to the point where the body is parsed (LB)
+func (*parser).parseFunctionBody [C10]
+  requires p != nil && decl != nil && p.module != nil && p.module.PublicDecls != nil && p.resolver != nil
+  at LB before call blockStatement
+  ensures forall k string :: k != old(decl.NameTok.Literal) || !old(decl.IsPublic) ==>
+            at(LB, mapHas(p.module.PublicDecls, k)) == old(mapHas(p.module.PublicDecls, k)) && at(LB, p.module.PublicDecls[k]) == old(p.module.PublicDecls[k])
+  ensures at(LB, mapHas(p.module.PublicDecls, decl.NameTok.Literal)) && !old(mapHas(p.module.PublicDecls, decl.NameTok.Literal)) ==>
+            at(LB, p.module.PublicDecls[decl.NameTok.Literal]) == decl
+  loop 0 invariant forall k string :: k != decl.NameTok.Literal || !decl.IsPublic ==>
+            mapHas(p.module.PublicDecls, k) == old(mapHas(p.module.PublicDecls, k)) && p.module.PublicDecls[k] == old(p.module.PublicDecls[k])
+  loop 0 invariant mapHas(p.module.PublicDecls, decl.NameTok.Literal) && !old(mapHas(p.module.PublicDecls, decl.NameTok.Literal)) ==>
+            p.module.PublicDecls[decl.NameTok.Literal] == decl
+
+// C04, rule "a function with a result ends in a return": otherwise it is reported
+func (*parser).ensureReturnStatementPresent [C04]
+  requires p != nil && decl != nil
+  calls err when !ddptypes.IsVoid(decl.ReturnType) && len(body.Statements) < 1
+  calls err when !ddptypes.IsVoid(decl.ReturnType) && len(body.Statements) >= 1 &&
+                 !is[*ast.ReturnStmt](body.Statements[len(body.Statements) - 1]) && !is[*ast.TodoStmt](body.Statements[len(body.Statements) - 1])
+
 func (*parser).resolveModuleImport$2 [C03]
   safe nilrecv
   requires d == nil ==> path == inclPath
